@@ -90,9 +90,9 @@ def draw_unit_pair(rng, mode=None):
 
 def float32_safe(osy, dtypes, units):
     """False if float32 data in these units could over/underflow when converted between them
-    (scale ratios beyond 1e+-20): such cases are run in float64 instead."""
+    (scale ratios beyond 1e+-8: products of two such numbers stay far inside float32's 1e+-38): such cases are run in float64 instead."""
     from .unitsref import scale_dims
     if not any(str(d) == "float32" for d in dtypes):
         return True
     scales = [scale_dims(osy.units(u))[0] for u in units if u is not None]
-    return (max(scales) / min(scales)) < 1e20 if scales else True
+    return (max(scales) / min(scales)) < 1e8 if scales else True
